@@ -20,9 +20,9 @@ configuration, every fuel and every well-scoped program (`c04_dynamic`).
   enclosing block, and no id is declared twice along a lexical path.  The static half
   (`Props/C04Static.lean`) proves that the resolver model annotates every occurrence with the
   nearest enclosing declaration; that its output is always `WellScoped` (ids are allocated fresh) is
-  evaluated here on examples (`resolved_programs_are_wellScoped`) and, in `./check C04`, on the real
-  resolver's annotated AST of EVERY accepted program of the `run` stream; the general lemma
-  `∀ q, Accepted q → WellScoped (resolve q).root` is not proved.
+  PROVED in `Props/C04Bridge.lean` (`c04_bridge`: no error diagnostics ⇒ `WellScoped (resolve q).root`,
+  hence `c04_accepted`), evaluated here on examples (`resolved_programs_are_wellScoped`) and, in
+  `./check C04`, on the REAL resolver's annotated AST of every accepted program of the `run` stream.
 * The invariant is `MR cfg Γ st` (`Lemmas/EvalScope.lean`): I1 slots and hoisted functions of a
   scope are declarations of the binder it instantiates; I2 the scopes on `st.chain` instantiate
   exactly the lexical ancestors `Γ` of the program point; I3 no scope above a chain scope declares
